@@ -295,6 +295,16 @@ def integrateSeq (f : Fld) : List String → M Res
     | .ok (.vals v) => if ds.isEmpty then .ok (.vals v) else .error .type
     | .ok (.field g) => integrateSeq g ds
 
+/-- averaging direction by direction: `f.mean(d1).mean(d2)…` (bare names; each step returns a
+field on the reduced mesh) -/
+def meanSeq (f : Fld) : List String → M Res
+  | [] => .ok (.field f)
+  | d :: ds =>
+    match mean f (.name d) with
+    | .error e => .error e
+    | .ok (.vals _) => .error .type
+    | .ok (.field g) => meanSeq g ds
+
 /-! ## helpers used by the statements of the theorems -/
 
 /-- `α·f + β·g` cell by cell, on `f`'s mesh -/
